@@ -161,10 +161,10 @@ def gen(rng, i, tier):
         again["lam"] = [lam2.numerator, lam2.denominator]
         calls.append(again)
     # a fixed share: each costs the model a minute or more (some 1500 terms over unary-coded labels) -- one plain case in the
-    # quick tier, one in a hundred with all relations and an earlier constraint in the thorough tier
+    # quick tier, one in two hundred (thirty cases) with all relations and an earlier constraint in the thorough tier
     if tier == "quick" and i == 37:
         obj, calls = [], [huge_call(rng, labs, cheap=True)]
-    elif tier != "quick" and i % 100 == 37:
+    elif tier != "quick" and i % 200 == 37:
         calls = calls[:rng.randint(0, 1)] + [huge_call(rng, labs)]
     return {"obj": G.jraw(obj), "calls": calls, "touch": rng.choice([None, None, "refresh", "copy", "keep", "round"])}
 
